@@ -404,6 +404,8 @@ _KEEP: frozenset = frozenset()
 _HOIST_TESTS = False
 _COMP_LOOPS = False
 _CUR_BODY: Optional[List[ast.stmt]] = None
+_TABLE_BODY: Optional[List[ast.stmt]] = None
+_VIEW_DEPTH = 0
 
 
 def unrolled(model: Model, fi: FuncInfo, keep: frozenset = frozenset(), hoist_tests: bool = False, comp_loops: bool = False) -> FuncInfo:
@@ -536,6 +538,23 @@ def _inline_returned_helpers(model: Model, fi: FuncInfo, body: List[ast.stmt]) -
         out: List[ast.stmt] = []
         skip_next = False
         stmts = hoist(stmts)
+        # x = h(..); if x is None: <leave>; return E(x)   is   x = h(..); if x is not None: return E(x); <leave>
+        for j_ in range(len(stmts) - 1):
+            a_, g_, r_ = stmts[j_], stmts[j_ + 1], stmts[j_ + 2:]
+            if isinstance(g_, ast.If) and g_.orelse and not r_ and _terminates(list(g_.body)):
+                # (the tail was already moved into the else branch)
+                g2_ = copy.copy(g_)
+                r_ = list(g_.orelse)
+                g2_.orelse = []
+                g_ = g2_
+            if isinstance(a_, ast.Assign) and len(a_.targets) == 1 and isinstance(a_.targets[0], ast.Name) and isinstance(a_.value, ast.Call) and isinstance(g_, ast.If) and not g_.orelse and _terminates(list(g_.body)) and len(r_) == 1 and isinstance(r_[0], ast.Return) and r_[0].value is not None:
+                t_ = g_.test
+                if isinstance(t_, ast.Compare) and len(t_.ops) == 1 and isinstance(t_.ops[0], ast.Is) and isinstance(t_.left, ast.Name) and t_.left.id == a_.targets[0].id and _is_none(t_.comparators[0]):
+                    pos = ast.copy_location(ast.If(test=ast.Compare(left=ast.Name(id=t_.left.id, ctx=ast.Load()), ops=[ast.IsNot()], comparators=[ast.Constant(value=None)]), body=[r_[0]], orelse=[]), g_)
+                    ast.fix_missing_locations(pos)
+                    _fresh(pos)
+                    stmts = list(stmts[:j_ + 1]) + [pos] + list(g_.body)
+                    break
         for i_, st in enumerate(stmts):
             if skip_next:
                 skip_next = False
@@ -967,6 +986,16 @@ def _tail_helper_body(model: Model, fi: FuncInfo, body: List[ast.stmt], caller_n
     h, skip = got
     if not call.args and not call.keywords and not skip:
         return None
+    global _VIEW_DEPTH
+    if _VIEW_DEPTH < 2 and not isinstance(h.node, ast.Lambda) and any((isinstance(st_, ast.For) and any(isinstance(y_, ast.Return) for y_ in ast.walk(st_))) or (isinstance(st_, ast.Return) and isinstance(st_.value, ast.Call) and isinstance(st_.value.func, ast.Name) and st_.value.func.id == "next") for st_ in h.node.body):
+        # a finder (first match over a literal table): read through its own view - the if-chain it abbreviates
+        _VIEW_DEPTH += 1
+        saved = (_KEEP, _HOIST_TESTS, _COMP_LOOPS, _CUR_BODY, _TABLE_BODY)
+        try:
+            h = unrolled(model, h)
+        finally:
+            _VIEW_DEPTH -= 1
+            globals().update(dict(zip(("_KEEP", "_HOIST_TESTS", "_COMP_LOOPS", "_CUR_BODY", "_TABLE_BODY"), saved)))
     if call.keywords:
         # keyword arguments name the parameters they bind (they are evaluated after the positional ones, as written)
         rest_ = h.pos_params[skip + len(call.args):]
@@ -982,11 +1011,12 @@ def _tail_helper_body(model: Model, fi: FuncInfo, body: List[ast.stmt], caller_n
         _kw_order = None
     if h is fi or h.name in _KEEP or isinstance(h.node, ast.Lambda) or not h.is_private or any(ast.unparse(d) != "staticmethod" for d in h.node.decorator_list):
         return None
-    n_sites = len(call_sites_of(model, h))
+    h0 = got[0]
+    n_sites = len(call_sites_of(model, h0))
     if n_sites == 0 and h.cls is not None and h.cls is not fi.cls:
         # a method of a private record class: its call sites are the `x.name(..)` calls of the package
         n_sites = sum(1 for g_ in model.funcs.values() for c_ in ast.walk(g_.node) if isinstance(c_, ast.Call) and isinstance(c_.func, ast.Attribute) and c_.func.attr == h.name and g_.parent_func is None)
-    small = sum(1 for x in ast.walk(h.node) if isinstance(x, ast.stmt)) <= 8 and not any(c_ is h for c_, _cl, _sk in call_sites_of(model, h))
+    small = sum(1 for x in ast.walk(h.node) if isinstance(x, ast.stmt)) <= 8 and not any(c_ is h0 for c_, _cl, _sk in call_sites_of(model, h0))
     if (n_sites != 1 and not small) or (len(h.pos_params) - skip != len(call.args) and not h.node.args.vararg):
         return None
     a = h.node.args
@@ -1103,7 +1133,8 @@ def _tail_helper_body(model: Model, fi: FuncInfo, body: List[ast.stmt], caller_n
                 return ast.copy_location(ast.Name(id=ren[n.id], ctx=n.ctx), n)
             return n
 
-    hb = [st for st in h.node.body if not (isinstance(st, ast.Expr) and isinstance(st.value, ast.Constant) and isinstance(st.value.value, str))]
+    h_body = h.node.body
+    hb = [st for st in h_body if not (isinstance(st, ast.Expr) and isinstance(st.value, ast.Constant) and isinstance(st.value.value, str))]
     if vararg_elts is not None:
         hb2: List[ast.stmt] = []
         for st in hb:
@@ -1235,9 +1266,40 @@ def _unroll(model: Model, fi: FuncInfo) -> FuncInfo:
             i += 1
         return out_, ch_
 
+    # return next((v for k, v in TABLE if test), default) is the finder loop `for k, v in TABLE: if test: return v` followed
+    # by `return default`
+    nb_: List[ast.stmt] = []
+    for st_ in body:
+        v_ = st_.value if isinstance(st_, ast.Return) else None
+        if isinstance(v_, ast.Call) and isinstance(v_.func, ast.Name) and v_.func.id == "next" and len(v_.args) == 2 and not v_.keywords and isinstance(v_.args[0], ast.GeneratorExp) and len(v_.args[0].generators) == 1 and not v_.args[0].generators[0].is_async and _pure(v_.args[1]):
+            g_ = v_.args[0].generators[0]
+            tn_ = {n_.id for n_ in ast.walk(g_.target) if isinstance(n_, ast.Name)}
+            others_ = {n_.id for o_ in body if o_ is not st_ for n_ in ast.walk(o_) if isinstance(n_, ast.Name)} | set(fi.params)
+            if tn_ and not (tn_ & others_) and g_.ifs:
+                test_ = g_.ifs[0] if len(g_.ifs) == 1 else ast.BoolOp(op=ast.And(), values=[clone_ast(i_) for i_ in g_.ifs])
+                inner_ = ast.If(test=clone_ast(test_), body=[ast.Return(value=clone_ast(v_.args[0].elt))], orelse=[])
+                loop_ = ast.For(target=clone_ast(g_.target), iter=clone_ast(g_.iter), body=[inner_], orelse=[], type_comment=None)
+                for n_ in ast.walk(loop_.target):
+                    if isinstance(n_, ast.Name):
+                        n_.ctx = ast.Store()
+                dflt_ = ast.Return(value=clone_ast(v_.args[1]))
+                for n_ in (loop_, dflt_):
+                    ast.copy_location(n_, st_)
+                    ast.fix_missing_locations(n_)
+                    n_._fresh = True  # type: ignore
+                nb_ += [loop_, dflt_]
+                changed = True
+                continue
+        nb_.append(st_)
+    body = nb_
+    global _TABLE_BODY
+    _TABLE_BODY = body
     # table dispatch first (its pattern is two adjacent statements), then the re-shaping passes, then tables once more
     # for what the inlined helpers brought in
-    body, ch = tables(body)
+    try:
+        body, ch = tables(body)
+    finally:
+        _TABLE_BODY = None
     changed = changed or ch
     body, ch = _sink_tail(body)
     changed = changed or ch
@@ -1444,7 +1506,8 @@ def _match_inline_loop(model: Model, fi: FuncInfo, s: ast.stmt) -> Optional[List
     if any(isinstance(x, (ast.NamedExpr, ast.Await, ast.Yield, ast.YieldFrom)) for x in ast.walk(br)):
         return None
     # the loop variables live only in this loop
-    for n in own_nodes(fi):
+    scope_nodes = [n for st_ in _TABLE_BODY for n in ast.walk(st_)] if _TABLE_BODY is not None else list(own_nodes(fi))
+    for n in scope_nodes:
         if isinstance(n, ast.Name) and n.id in (kv, vv) and not any(n is x for x in ast.walk(s)):
             return None
     table = _pairs_literal(model, fi, s.iter)
